@@ -1,5 +1,6 @@
 import AvoVerif.Props.C10
 import AvoVerif.Props.C10Tables
+import AvoVerif.Props.C10Sim
 #print axioms Avo.Cleanup.prune_selfmov_ok
 #print axioms Avo.Cleanup.selfMove_kind
 #print axioms Avo.Cleanup.movl_self_has_effect
@@ -13,3 +14,7 @@ import AvoVerif.Props.C10Tables
 #print axioms Avo.Cleanup.pruneJumps_sublist
 #print axioms Avo.Cleanup.compile_order
 #print axioms Avo.Cleanup.selfmove_opcodes
+#print axioms Avo.Cleanup.pruneJumps_step
+#print axioms Avo.Cleanup.pruneJumps_run
+#print axioms Avo.Cleanup.pruneLabels_step
+#print axioms Avo.Cleanup.after_prune
